@@ -23,6 +23,13 @@ claim("C01", "exploration",
       "(one per transfer with receive-once off) with byte-exact content and metadata, no failed writer, nothing else delivered; objects the wire format cannot carry must be refused. "
       "A hang is a violation (watchdog). Open findings are excluded by signature (counted) and pinned.",
       "DESIGN.md section 4 C01")
+claim("C06", "exploration",
+      "exhaustive product of field-width classes + proptest boundary values; differential against an independent RFC codec in both directions (flute builds / reference decodes, reference builds / flute parses) plus flute round-trip",
+      "All 9600 combinations of CCI/TSI/TOI width class x close flag x scheme x extension subset are enumerated with 4 boundary value sets each (exhaustive over classes, sampled inside a class); "
+      "seeded cases cover every FTI field per scheme, payload ids over each scheme's SBN/ESI range, SCT from 1970 to the NTP era end, and - reference-built only - non-minimal widths, PSI/reserved "
+      "bits, unknown and long extensions (HEL up to 200 words) in any order, EXT_TIME variants and FEC id 2. Field-by-field equality; times within 1 us. The Raptor (FEC 1) FTI layout is a "
+      "self-consistency check only (RFC 5053 figure not available offline).",
+      "DESIGN.md section 4 C06")
 claim("C07", "exploration",
       "exhaustive small-box enumeration + proptest boundary triples against a 128-bit reference partition (differential oracle)",
       "All (B<=64,E<=24,L<=4000) triples are enumerated (exhaustive on that box) and every block of every triple is compared with an independent u128 "
